@@ -43,7 +43,7 @@ PLAIN_TOKENS = {"a", "1"}
 SUFFIXES = [("", XSD_STRING), ("@en", LANGSTRING), ("@en-GB", LANGSTRING),
             ("^^<" + XSD + "int>", XSD + "int"), ("^^<http://ex.org/dt/custom>", "http://ex.org/dt/custom"),
             ("^^<http://ex.org/dt@x>", "http://ex.org/dt@x")]
-TAILS = [" .", ".", " . # c", ' . # "q" @x']
+TAILS = [" .", ".", " . # c", ' . # "q" @x', ". # c", ".# c"]
 SEPS = [" ", "\t", "  "]
 SUBJECTS = [("<http://ex.org/s>", ("iri", "http://ex.org/s")), ("_:b1", ("bnode", "_:b1")),
             ("<http://ex.org/a#b@c_d:e>", ("iri", "http://ex.org/a#b@c_d:e")),
